@@ -16,7 +16,8 @@ EXPLANATION = (
     "refers into a private zone for every input (index values)."
     " ADDED LATER: R3-DECLARATIONS also: build_header tests every converted node (no hand-written index that jumps)."
     " ROUND 8: R4-NODE-IDS-FRESH: every node id a ParseBuffer method hands out is created by that call or passed in by the caller, never read from the buffer's own state (the header builder rebases ids by subtraction)."
-    " ROUND 9: R5-HEADER-ALWAYS-CONVERTED: on the MIR every return of build_header is dominated by the call of build_header_nodes.")
+    " ROUND 9: R5-HEADER-ALWAYS-CONVERTED: on the MIR every return of build_header is dominated by the call of build_header_nodes."
+    " ROUND 10: R3-DECLARATIONS 'declarations stay in scan order': only push is applied to the list that becomes the header's declarations.")
 
 PT = "delta::parser::parse_tree::"
 PN = "delta::parser::parse_node::ParseNode"
